@@ -74,14 +74,19 @@ CLAIMED = {
          "heap unchanged (no universe created, nothing touched); otherwise members = Dedup(side array) and one link per truthy cell, row vertex -> "
          "column vertex, in row-major order. Both builders are additionally compared with the statement through the public API by explorer "
          "operations (thorough tier, and whenever an obligation fails)."),
- "C20": ("proof", "12.5/C20", "Two parts. PROVED: the materialisation step - load_adj_dict's contract (see C11) gives, for every adjacency dict, a universe "
-         "whose members are exactly the mentioned vertices and in which every created link has exactly the requested class and both ends among "
-         "the members; with distinct fresh keys (what randgraph passes) that is `count` vertices, every link of the requested type with both ends "
-         "inside. BOUNDED, not proved: randgraph's own body (sample sizes via float arithmetic, the random module, an allocating comprehension are "
-         "outside the symbolic subset): registered with a TRUSTED contract and checked on every run by the explorer operation `randgraph` "
-         "(counts 1..7 incl. those where the default connectivity exceeds 1, four edge types, five connectivity settings, both ensurelink values, "
-         "seeds drawn from 10^6): no exception, count and i attributes, link types, ends inside, first-end guarantee, same graph after re-seeding. "
-         "Reproducibility is a two-run property and is only covered by that bounded part."),
+ "C20": ("proof", "12.14", "Three parts. PROVED (heap executor): the materialisation step - load_adj_dict's contract (see C11) gives, for every adjacency "
+         "dict, a universe whose members are exactly the mentioned vertices and in which every created link has exactly the requested class and "
+         "both ends among the members. PROVED (scalar verification conditions generated from the AST of randgraph on every run, pyvc/arith.py, z3 over "
+         "mixed integer / real arithmetic, no bound on count, index, draw or connectivity): on every path through the body of `for i in range(count)` "
+         "the divisor of the default connectivity is non-zero, random.randint gets a non-empty range, 0 <= k <= len(verts) at random.sample (so "
+         "nothing raises), ensurelink => k >= 1 (first-end guarantee through load_adj_dict's contract), every path stores adj[verts[i]] exactly once "
+         "(no vertex skipped: `count` members), len(verts) = count with the vertex at index i carrying i, and the function returns "
+         "load_adj_dict(adj, linktype=edge). A refuted scalar obligation comes with a model (count, i, draw, connectivity, ensurelink) that is "
+         "replayed against the real function with random.randint forced to the draw. BOUNDED, not proved: what these conditions ASSUME about the "
+         "random module (randint in range, sample returns k distinct elements of the population) and float = real arithmetic, plus "
+         "reproducibility under re-seeding (a two-run property): randgraph keeps a TRUSTED contract in the heap executor and the explorer operation "
+         "`randgraph` (counts 1..7, four edge types, five connectivity settings, both ensurelink values, seeds drawn from 10^6) runs on every check. "
+         "A body outside the scalar subset (sets, helper calls, ...) is undecided there and falls back to that bounded stand-in."),
  "C12": ("proof", "6/C12", "(1) ownership discipline of the private containers, checked syntactically on every occurrence in the tree; (2) every read "
          "accessor / query is verified against a contract whose result is a tuple value or a container allocated by the call (Vertex.links, "
          "Link.vertices, Universe.vertices, BaseObject.universes, neighbors() - separate lists for the caller and for the memo -, find_links, "
